@@ -309,7 +309,9 @@ pub fn gen_cond(t: &mut Tape, nstreams: usize) -> Cond {
         alpha: tri(t, None, &[Some(0.0), Some(0.8)], |t| Some(magnitude(t, 0.8))),
         beta: tri(t, 0.0, &[0.8, 0.0], |t| magnitude(t, 0.8)),
         gv_weight: (0..nstreams).map(|_| tri(t, None, &[Some(0.0), Some(2.0)], |t| Some(magnitude(t, 2.0)))).collect(),
-        msd_threshold: (0..nstreams).map(|_| tri(t, None, &[Some(0.0), Some(1.0)], |t| Some(t.uniform(0.0, 1.0)))).collect(),
+        // edges incl. thresholds that EQUAL a voicing weight found in the voices (0.05 / 0.95 / 0.5
+        // as the f32 values the files hold): a state is voiced only if its weight exceeds the threshold
+        msd_threshold: (0..nstreams).map(|_| tri(t, None, &[Some(0.0), Some(1.0), Some(0.05f32 as f64), Some(0.95f32 as f64), Some(0.5)], |t| Some(t.uniform(0.0, 1.0)))).collect(),
         half_tone: tri(t, 0.0, &[-24.0, 24.0], |t| signed_magnitude(t, 24.0)),
         volume_db: tri(t, 0.0, &[-20.0, 20.0], |t| signed_magnitude(t, 20.0)),
         speed: tri(t, 1.0, &[0.25, 4.0], |t| t.log_uniform(0.25, 4.0)),
